@@ -47,6 +47,7 @@ func runC13(c *Ctx) {
 	c.rule("checksum-of-encoding", "Checksum uses its receiver only through the equality encoder and hashes the result")
 	c.rule("sorted-before-ordered-sink", "a slice passed to strings.Join / reflect.DeepEqual / cmp.Equal / a concatenation loop is sorted after its last append")
 	c.rule("map-order-leak", "no string is accumulated inside a range over a map")
+	c.rule("comparator-is-an-order", "a function literal handed to sort.Slice/SliceStable/slices.SortFunc in an encoder is one strict comparison of a key or a lexicographic chain in which a later key is compared only under equality of the earlier ones (`k1 < || (k1 == && k2 <)`, `if k1 != { return k1 < }`); `a.k1 < b.k1 || a.k2 < b.k2` and `<=` are reported")
 	c.notDecided("collision freedom of SHA-256; whether Person.Contacts is a set")
 	c.kernelRule("sbom.(*Node).Equal")
 	c.kernelRule("sbom.(*Edge).Equal")
